@@ -1,0 +1,27 @@
+//go:build verif
+
+package cs
+
+import (
+	"math/big"
+
+	"github.com/consensys/gnark/constraint"
+	csolver "github.com/consensys/gnark/constraint/solver"
+)
+
+// verification hooks, only compiled with -tags verif: they let an external model-checking
+// harness observe / replace hint outputs (including the hints the solver installs itself)
+// and observe / overwrite the solution handed to the backend.
+
+func verifHintHook(cs *system, id csolver.HintID, q *big.Int, inputs, outputs []*big.Int, err error) error {
+	if h := constraint.VerifHintHook; h != nil {
+		return h(cs, id, q, inputs, outputs, err)
+	}
+	return err
+}
+
+func verifPostSolveHook(cs *system, values any, solution any) {
+	if h := constraint.VerifPostSolveHook; h != nil {
+		h(cs, values, solution)
+	}
+}
